@@ -219,7 +219,7 @@ Qed.
 Definition flow_structure_ok : bool :=
   negb gen_owner_loop_writes
   && forallb (fun f => snd f) gen_flow_facts
-  && Nat.eqb (List.length gen_flow_facts) 10
+  && Nat.eqb (List.length gen_flow_facts) 11
   (* waking the caller never blocks the owner loop *)
   && match assoc "fcallRequest.response" gen_flow_chan_caps with Some n => N.leb 1 n | None => false end
   && match assoc "fcallRequest.err" gen_flow_chan_caps with Some n => N.leb 1 n | None => false end
@@ -246,6 +246,28 @@ Theorem C09_complete : forall cap n sched s,
   /\ ((forall e, enabled Fixed cap s e = false) -> c_done s = n).
 Proof. exact fixed_complete. Qed.
 Print Assumptions C09_complete.
+
+(* ... and a served session may hold every call until all n have arrived:
+   while no handler returns, the goroutines keep moving until all n calls sit
+   in running handlers (no bound on the calls in flight short of the tag space) *)
+Theorem C09_all_arrive : forall cap n sched s,
+  forallb (fun e => negb (is_finish e)) sched = true ->
+  run Fixed cap (init n) sched = Some s ->
+  (forall e, is_finish e = false -> enabled Fixed cap s e = false) ->
+  h_run s = n.
+Proof. exact fixed_all_arrive. Qed.
+Print Assumptions C09_all_arrive.
+
+Example C09_all_arrive_nonvacuous :
+  exists sched s, forallb (fun e => negb (is_finish e)) sched = true /\
+    run Fixed 0 (init 3) sched = Some s /\ (forall e, is_finish e = false -> enabled Fixed 0 s e = false) /\
+    h_run s = 3%nat.
+Proof.
+  exists [ESubmit; ESubmit; ESubmit; EQueueToWriter; ECWrite; ESpawn; EQueueToWriter; ECWrite; ESpawn;
+          EQueueToWriter; ECWrite; ESpawn].
+  eexists. split; [reflexivity |]. split; [vm_compute; reflexivity |].
+  split; [intros e He; destruct e; try discriminate He; reflexivity | reflexivity].
+Qed.
 
 Example C09_complete_nonvacuous :
   exists sched s, run Fixed 0 (init 2) sched = Some s /\ (forall e, enabled Fixed 0 s e = false) /\ c_done s = 2%nat.
